@@ -535,20 +535,21 @@ fn string<'a>() -> impl Parser<'a, ParserInput<'a>, Literal, ParserError<'a>> {
 }
 
 fn raw_string<'a>() -> impl Parser<'a, ParserInput<'a>, Literal, ParserError<'a>> {
+    // The closing quote has to be the same character as the opening one; the
+    // other quote character is ordinary content.
+    let delimited_by = |quote: char| {
+        just(quote)
+            .ignore_then(
+                any()
+                    .filter(move |c: &char| *c != quote && *c != '\n' && *c != '\r')
+                    .repeated()
+                    .to_slice(),
+            )
+            .then_ignore(just(quote))
+    };
     just("r")
-        .then(choice((just('\''), just('"'))))
-        .then(
-            any()
-                .filter(move |c: &char| *c != '\'' && *c != '"' && *c != '\n' && *c != '\r')
-                .repeated()
-                .to_slice(),
-        )
-        .then(choice((just('\''), just('"'))))
-        .map(
-            |(((_, _open_quote), s), _close_quote): (((&str, char), &str), char)| {
-                Literal::RawString(s.to_string())
-            },
-        )
+        .ignore_then(choice((delimited_by('\''), delimited_by('"'))))
+        .map(|s: &str| Literal::RawString(s.to_string()))
 }
 
 fn boolean<'a>() -> impl Parser<'a, ParserInput<'a>, Literal, ParserError<'a>> {
